@@ -147,8 +147,10 @@ contract(
     variants={"%s,shift=%d" % (k, sh): dict(x=t, scale=TInt(lo=0, hi=I32_MAX), shift=TConst(sh)) for k, t in INT_TYPES.items() for sh in range(0, 63)},
     # reference precondition: the left-shifted operand must fit int32 (UB otherwise in the reference)
     requires=["0 <= shift <= 62", "0 <= scale <= I32_MAX", "I32_MIN <= x * 2**(31 - shift if shift < 31 else 0) <= I32_MAX"],
-    ensures=["int(result) == mbqm(x, scale, shift)"],
+    ensures=["int(result) == mbqm(x, scale, shift)", "I32_MIN <= int(result) <= I32_MAX"],
     returns=PyInt,
+    # symbolic shift at call sites: covered by the exhaustive constant variants shift = 0..62
+    call_variants={"%s,shift=sym" % k: dict(x=t, scale=TInt(lo=0, hi=I32_MAX), shift=TInt(lo=0, hi=62)) for k, t in INT_TYPES.items()},
 )
 
 
